@@ -27,6 +27,9 @@ import (
 
 var gWorld *World
 
+// knownByRole: functions a rule set located by their role (e.g. the DKG message intakes), whatever their name.
+var knownByRole = map[*ssa.Function]bool{}
+
 // transparent: one-expression predicates of the confirmed tree whose *name* carries no meaning for the
 // rules; they are always expanded, so that renaming or inlining them changes nothing.
 var transparent = map[string]bool{
@@ -42,6 +45,9 @@ func isNewHelper(fn *ssa.Function) bool {
 		return false
 	}
 	if vocab[fn.String()] && !transparent[fn.String()] {
+		return false
+	}
+	if knownByRole[fn] {
 		return false
 	}
 	if token.IsExported(fn.Name()) {
